@@ -140,6 +140,9 @@ def run_case(c, rng):
                 rows.insert(rng.randint(0, len(rows)), rng.choice(rows))
             c.count('layers_with_duplicates')
         vl = pd.DataFrame(rows, columns=['link', 'node'])
+        if (c.index * 2654435761) % 10 < 3:
+            vl = vl[['node', 'link']]        # the documented contract names the columns, it does not order them
+            c.count('layers_with_node_column_first')
         if len(rows) >= 3 and not dup and rng.random() < 0.15:
             sub = True
             keep = sorted(rng.sample(range(len(rows)), rng.randint(1, len(rows) - 1)))
